@@ -6,8 +6,13 @@ From Coq Require Import List NArith ZArith Bool PeanoNat.
 From GP Require Import Base.Val.
 Import ListNotations.
 
-Record inst := { i_alive : bool; i_test : bool; i_store : Z }.
-Record rcl := { c_inst : nat; c_test : bool; c_live : bool }.   (* c_live: its Start succeeded and it was not killed (non-test) *)
+Inductive conn := CUp | CDown | CMaybe.   (* are connections established earlier still served?  CMaybe: either *)
+Record inst := { i_alive : bool;      (* the instance runs and accepts new connections *)
+                 i_conn : conn;
+                 i_test : bool; i_store : Z }.
+Record rcl := { c_inst : nat; c_test : bool;
+                c_live : bool;        (* its Start succeeded and it was not killed (non-test) *)
+                c_conn : bool }.      (* its Start ever succeeded: it has an address, hence a ReattachConfig *)
 Record world := { insts : list inst; cls : list rcl }.
 
 Inductive rop :=
@@ -23,32 +28,42 @@ Fixpoint updl {A} (l : list A) (i : nat) (x : A) : list A :=
   match l, i with [], _ => [] | _ :: t, O => x :: t | h :: t, S j => h :: updl t j x end.
 
 Definition inst_alive (w : world) (i : nat) : bool := match nth_error (insts w) i with Some x => i_alive x | None => false end.
-Definition set_alive (w : world) (i : nat) (b : bool) : world :=
+Definition inst_conn (w : world) (i : nat) : conn := match nth_error (insts w) i with Some x => i_conn x | None => CDown end.
+Definition set_state (w : world) (i : nat) (alive : bool) (conn : conn) : world :=
   match nth_error (insts w) i with
-  | Some x => {| insts := updl (insts w) i {| i_alive := b; i_test := i_test x; i_store := i_store x |}; cls := cls w |}
+  | Some x => {| insts := updl (insts w) i {| i_alive := alive; i_conn := conn; i_test := i_test x; i_store := i_store x |}; cls := cls w |}
   | None => w
   end.
 
-(* observation codes: reattach 1 ok / 0 process-not-found; set 1/0; get value or -1; alive 1/0; others 0 *)
-Definition rstep (w : world) (o : rop) : world * Z :=
+(* observation codes: reattach 1 ok / 0 process-not-found / -2 the source client has no reattach config;
+   set 1/0; get value or -1; alive 1/0; others 0.
+   [net]: the protocol is net/rpc.  Cancelling the context of a test-mode server closes its listener; a gRPC server is
+   also stopped, which ends its connections; a net/rpc server has no way to end the connections it already has
+   (server.go says so in a comment) and whether a later call on one of them still works is a race with the teardown of
+   Serve: the model leaves it open (CMaybe) and takes the observed outcome, [hint], as the resolution. *)
+Definition works (c : conn) (hint_ok : bool) : bool := match c with CUp => true | CDown => false | CMaybe => hint_ok end.
+
+Definition rstep (net : bool) (w : world) (o : rop) (hint : Z) : world * Z :=
   match o with
   | RStart t =>
-      ({| insts := insts w ++ [{| i_alive := true; i_test := t; i_store := 0 |}];
-          cls := cls w ++ [{| c_inst := length (insts w); c_test := t; c_live := true |}] |}, 1%Z)
+      ({| insts := insts w ++ [{| i_alive := true; i_conn := CUp; i_test := t; i_store := 0 |}];
+          cls := cls w ++ [{| c_inst := length (insts w); c_test := t; c_live := true; c_conn := true |}] |}, 1%Z)
   | RReattach c =>
       match nth_error (cls w) c with
       | Some x =>
-          if inst_alive w (c_inst x)
-          then ({| insts := insts w; cls := cls w ++ [{| c_inst := c_inst x; c_test := c_test x; c_live := true |}] |}, 1%Z)
-          else ({| insts := insts w; cls := cls w ++ [{| c_inst := c_inst x; c_test := c_test x; c_live := false |}] |}, 0%Z)
+          if negb (c_conn x)
+          then ({| insts := insts w; cls := cls w ++ [{| c_inst := c_inst x; c_test := c_test x; c_live := false; c_conn := false |}] |}, (-2)%Z)
+          else if inst_alive w (c_inst x)
+          then ({| insts := insts w; cls := cls w ++ [{| c_inst := c_inst x; c_test := c_test x; c_live := true; c_conn := true |}] |}, 1%Z)
+          else ({| insts := insts w; cls := cls w ++ [{| c_inst := c_inst x; c_test := c_test x; c_live := false; c_conn := false |}] |}, 0%Z)
       | None => (w, (-2)%Z)
       end
   | RSet c v =>
       match nth_error (cls w) c with
       | Some x =>
-          if c_live x && inst_alive w (c_inst x) then
+          if c_live x && works (inst_conn w (c_inst x)) (Z.eqb hint 1) then
             match nth_error (insts w) (c_inst x) with
-            | Some y => ({| insts := updl (insts w) (c_inst x) {| i_alive := i_alive y; i_test := i_test y; i_store := v |}; cls := cls w |}, 1%Z)
+            | Some y => ({| insts := updl (insts w) (c_inst x) {| i_alive := i_alive y; i_conn := i_conn y; i_test := i_test y; i_store := v |}; cls := cls w |}, 1%Z)
             | None => (w, 0%Z)
             end
           else (w, 0%Z)
@@ -56,7 +71,7 @@ Definition rstep (w : world) (o : rop) : world * Z :=
       end
   | RGet c =>
       match nth_error (cls w) c with
-      | Some x => if c_live x && inst_alive w (c_inst x)
+      | Some x => if c_live x && works (inst_conn w (c_inst x)) (negb (Z.eqb hint (-1)))
                   then (w, match nth_error (insts w) (c_inst x) with Some y => i_store y | None => (-1)%Z end)
                   else (w, (-1)%Z)
       | None => (w, (-2)%Z)
@@ -66,23 +81,24 @@ Definition rstep (w : world) (o : rop) : world * Z :=
       | Some x =>
           if c_test x then (w, 0%Z)     (* test mode: no runner is recorded, Kill does nothing to the server *)
           else if c_live x
-               then ({| insts := insts (set_alive w (c_inst x) false);
-                        cls := updl (cls w) c {| c_inst := c_inst x; c_test := false; c_live := false |} |}, 0%Z)
+               then ({| insts := insts (set_state w (c_inst x) false CDown);
+                        cls := updl (cls w) c {| c_inst := c_inst x; c_test := false; c_live := false; c_conn := c_conn x |} |}, 0%Z)
                else (w, 0%Z)
       | None => (w, (-2)%Z)
       end
-  | RDie i => (set_alive w i false, 0%Z)
+  | RDie i => (set_state w i false CDown, 0%Z)
   | RCancel i => match nth_error (insts w) i with
-                 | Some x => if i_test x then (set_alive w i false, 0%Z) else (w, 0%Z)
+                 | Some x => if i_test x then (set_state w i false (if net then match i_conn x with CUp => CMaybe | c => c end else CDown), 0%Z) else (w, 0%Z)
                  | None => (w, (-2)%Z)
                  end
   | RAlive i => (w, if inst_alive w i then 1%Z else 0%Z)
   end.
 
-Fixpoint rrun (w : world) (ops : list rop) : world * list Z :=
+(* run a history; [hints] are the observed outcomes, consulted only where the model leaves a choice open *)
+Fixpoint rrun (net : bool) (w : world) (ops : list rop) (hints : list Z) : world * list Z :=
   match ops with
   | [] => (w, [])
-  | o :: r => let '(w1, x) := rstep w o in let '(w2, xs) := rrun w1 r in (w2, x :: xs)
+  | o :: r => let '(w1, x) := rstep net w o (hd 0%Z hints) in let '(w2, xs) := rrun net w1 r (tl hints) in (w2, x :: xs)
   end.
 Definition w0 : world := {| insts := []; cls := [] |}.
 
@@ -102,10 +118,10 @@ Definition drop_ (v : V) : option rop :=
 
 Definition check_reattach (inp obs : V) : verdict :=
   match inp, obs with
-  | VL ops, VL outs =>
+  | VL [VI pr; VL ops], VL outs =>
       match omap drop_ ops, omap dI outs with
       | Some ops, Some outs =>
-          let m := snd (rrun w0 ops) in
+          let m := snd (rrun (Z.eqb pr 0) w0 ops outs) in
           {| v_decoded := true; v_agree := V_eqb (VL (map VI m)) obs;
              v_oracle_impl := V_eqb (VL (map VI m)) obs;   (* the model IS the property here: same instance, not-found, test-mode survival *)
              v_oracle_model := true; v_model_obs := VL (map VI m); v_branch := vnat (length ops) |}
